@@ -127,13 +127,13 @@ pub fn gen_model(rng: &mut StdRng, o: &GenOpts) -> (MModel, Vec<char>) {
         for _ in 0..rng.gen_range(0..4) {
             tokens.insert(substr(rng, &base, 1, 3));
         }
-        let names = ["A", "B", "名", "x/y", "Q q"];
+        let names = ["A", "B", "名", "x/y", "Q q", "C", "D", "E"];
         for token in tokens {
             let ncat = rng.gen_range(0..=3);
             let mut cats = vec![];
             let mut ncls = 0;
             for _ in 0..ncat {
-                let nc = rng.gen_range(0..=3);
+                let nc = if rng.gen_bool(0.15) { rng.gen_range(4..=6) } else { rng.gen_range(0..=3) };
                 let c: Vec<String> = names.choose_multiple(rng, nc).map(|s| s.to_string()).collect();
                 if c.len() >= 2 {
                     ncls += c.len();
@@ -190,7 +190,14 @@ pub fn gen_model(rng: &mut StdRng, o: &GenOpts) -> (MModel, Vec<char>) {
                         .collect(),
                 })
                 .collect();
-            let bias = tw_vec(rng);
+            let mut bias = tw_vec(rng);
+            if rng.gen_bool(0.3) {
+                // classifiers whose trailing classes have a zero bias
+                let keep = rng.gen_range(0..=bias.len());
+                for b in bias.iter_mut().skip(keep) {
+                    *b = 0;
+                }
+            }
             tags.push(MTagModel {
                 token,
                 tags: cats,
@@ -616,5 +623,30 @@ pub fn record_serde(n_models: usize, seed: u64, out: &mut dyn Write) {
             }
         }
         writeln!(out, "{}", json!({"id": id, "ev": "serde", "ok": ok, "a": oa, "b": ob, "rest": rest, "trail": trail, "model": mj})).unwrap();
+    }
+}
+
+
+/// record gencases <n_models> <seed> <out>: random (model, texts) pairs as replayable history cases
+/// (no observation): the same file is replayed under several builds / predictor variants.
+pub fn record_gencases(n_models: usize, seed: u64, out: &mut dyn Write) {
+    let mut rng = StdRng::seed_from_u64(seed);
+    for id in 0..n_models {
+        let with_tags = id % 2 == 0;
+        let (mm, alpha) = gen_model(&mut rng, &GenOpts { with_tags, max_w: 12 });
+        let mj = mmodel_to_json(&mm);
+        let mut ops = vec![];
+        let lens = [rng.gen_range(1..=3usize), rng.gen_range(2..=12usize)];
+        for k in 0..5 {
+            let l = if k == 4 { rng.gen_range(1..=20) } else { lens[k % 2] };
+            let t = rand_text(&mut rng, &alpha, l, l);
+            ops.push(json!({"op": "up_raw", "s": str_to_cps(&t)}));
+            ops.push(json!({"op": "predict", "p": 0}));
+            if with_tags {
+                ops.push(json!({"op": "fill_tags", "cands": !mm.tags.is_empty() && mm.tags.iter().any(|t| !t.tags.is_empty())}));
+            }
+        }
+        writeln!(out, "{}", json!({"id": id, "kind": "history", "preds": [{"model": mj, "tags": with_tags, "store": with_tags}],
+                                   "ops": ops, "opts": {"writers": false}, "with_tags": with_tags})).unwrap();
     }
 }
